@@ -237,7 +237,7 @@ func WriteTree(root string, nodes []TNode) error {
 				return err
 			}
 		case "file":
-			if err := os.WriteFile(p, []byte(n.Content), 0o644); err != nil {
+			if err := os.WriteFile(p, []byte(ExpandContent(n.Content)), 0o644); err != nil {
 				return err
 			}
 		case "symlink":
@@ -247,4 +247,31 @@ func WriteTree(root string, nodes []TNode) error {
 		}
 	}
 	return nil
+}
+
+
+// ExpandContent expands "@REPEAT:<n>:<unit>@" markers (large contents stay small in case files).
+func ExpandContent(c string) string {
+	for {
+		i := strings.Index(c, "@REPEAT:")
+		if i < 0 {
+			return c
+		}
+		rest := c[i+len("@REPEAT:"):]
+		j := strings.Index(rest, ":")
+		if j < 0 {
+			return c
+		}
+		k := strings.Index(rest[j+1:], "@")
+		if k < 0 {
+			return c
+		}
+		n := 0
+		fmt.Sscanf(rest[:j], "%d", &n)
+		unit := rest[j+1 : j+1+k]
+		if n < 0 || n*len(unit) > 8<<20 {
+			return c
+		}
+		c = c[:i] + strings.Repeat(unit, n) + rest[j+1+k+1:]
+	}
 }
